@@ -610,6 +610,8 @@ def run_impl(case: dict, root: str, tracer: Tracer, snap0: "Snapshot | None" = N
                 if cb_now is None:
                     # base_dir the kernel cannot resolve: Python's non-strict resolution (see docstring, readings)
                     cb_now = os.path.realpath(b_now)
+            # does the tensor object already hold data of an earlier read? (state of the object, observed before the call)
+            had_cache = (t.raw is not None) or (getattr(t, "_array", None) is not None)
             tgt_now = None
             if b_now:
                 try:
@@ -673,7 +675,7 @@ def run_impl(case: dict, root: str, tracer: Tracer, snap0: "Snapshot | None" = N
             traced = [e[1] for e in tracer.events if e[0] == "O"]
             stray = [p for p in _AUDIT["paths"] if p not in traced and not p.endswith("dst.bin")]
             out.append({"events": list(tracer.events), "res": r, "stray_opens": stray if k != "world" else [],
-                        "snap": snap, "cwd": os.getcwd(), "base": b_now, "cb": cb_now, "tgt": tgt_now})
+                        "snap": snap, "cwd": os.getcwd(), "base": b_now, "cb": cb_now, "tgt": tgt_now, "had_cache": had_cache})
             tracer.events = []
         t.release()
     finally:
@@ -698,11 +700,12 @@ def oracle(case: dict, obs: list, snap_unused, root: str) -> list:
     bad = []
     base = case["base"].replace(W, root)
     tainted = False       # the tensor's cache was filled by a read that should have been rejected
-    cached = False        # the tensor holds data of an earlier successful read (numpy/tobytes may serve it unchecked)
     for i, (op, o) in enumerate(zip(case["ops"], obs)):
         snap, cwd = o["snap"], o["cwd"]      # the world in force at this call
-        if op[0] == "release":
-            tainted = cached = False
+        cached = bool(o.get("had_cache"))    # the object held mapped data before this call (whichever accessor loaded it,
+        #                                      also one that raised after mapping, e.g. serialize / numpy on a short file)
+        if not cached:
+            tainted = False                  # released (explicitly, or by serialize)
         if op[0] == "setbase":
             base = op[1].replace(W, root)
             continue
@@ -722,8 +725,6 @@ def oracle(case: dict, obs: list, snap_unused, root: str) -> list:
         if any(c[3] != "ok" for c in checks) and opens:
             bad.append(f"step {i} {op[0]}: the check raised but a file was opened")
         if o["base"] == "":
-            if o["res"][0] == "ok" and any(e[0] == "R" for e in ev):
-                cached = op[0] != "serialize"
             continue        # no boundary defined (documented behaviour of the code)
         cb = o["cb"]        # canonical directory base_dir denoted when this call was made
         nbad0 = len(bad)
@@ -774,10 +775,8 @@ def oracle(case: dict, obs: list, snap_unused, root: str) -> list:
                         if snap.file_nlink[k] != 1 or cb is None or not all(
                                 p.startswith(cb.rstrip("/") + "/") for p in snap.file_paths[k]):
                             bad.append(f"step {i} {op[0]}: returned bytes of {snap.file_paths[k]} (canary / outside {cb})")
-        if reads and op[0] in ("numpy", "array", "tobytes"):
-            cached = True                      # raw / _array may now be set (also when the call raised after mapping)
-            if len(bad) > nbad0:
-                tainted = True
+        if reads and len(bad) > nbad0:
+            tainted = True                     # if this call left data in the object, it is data that had to be rejected
     return bad
 
 
